@@ -54,6 +54,7 @@ type Exec struct {
 	loops    map[*ssa.Function]*LoopInfo
 	shape    string
 	shapeObj *Shape
+	noAssume bool // the goal being checked is not assumed afterwards (lockset obligations)
 	witLv    [][]*Term // witness constants of skolemised assumptions, per solver level
 	ghostOld *Snapshot
 	cexHook  func(e *Exec, st *State, o *Oblig) *Cex
@@ -242,7 +243,9 @@ func (e *Exec) check(st *State, fr *Frame, class string, instr ssa.Instruction, 
 	if o.Failed+o.Undec > 0 && o.Inst > 6 {
 		// already failing: do not spend solver time on further path instances
 		o.Undec++
-		e.assume(orig)
+		if !e.noAssume {
+			e.assume(orig)
+		}
 		return false
 	}
 	cr := e.prove(st, o, goal, sks)
@@ -262,7 +265,9 @@ func (e *Exec) check(st *State, fr *Frame, class string, instr ssa.Instruction, 
 			o.Model = cr.Model
 		}
 	}
-	e.assume(orig)
+	if !e.noAssume {
+		e.assume(orig)
+	}
 	return ok
 }
 
@@ -368,10 +373,6 @@ func (e *Exec) prove(st *State, o *Oblig, goal *Term, gsks []*Term) CheckResult 
 			for _, x := range insts {
 				e.assumeRaw(x) // existentials of the instances become witnesses
 			}
-			// second round: quantifiers nested in the instances just added
-			for _, x := range s.instancesFrom(len(s.qlv)-1, at) {
-				e.assumeRaw(x)
-			}
 			if cands := e.candidates(st, sks); len(cands) > 0 && hasEx {
 				goal = strengthen(goal, true, cands, 0)
 				e.ensureDecls(goal)
@@ -392,6 +393,24 @@ func (e *Exec) prove(st *State, o *Oblig, goal *Term, gsks []*Term) CheckResult 
 	s.timeout = full
 	if cr.Res == "unknown" || cr.Res == "error" {
 		cr = s.fallbacks(script, cr)
+	}
+	if cr.Res != "unsat" && pushed {
+		// last resort: a second round of instances, for the quantifiers nested in
+		// the instances of the first (kept apart: the extra facts slow the easy cases)
+		if more := s.instancesFrom(len(s.qlv)-1, at); len(more) > 0 {
+			for _, x := range more {
+				e.assumeRaw(x)
+			}
+			cr3, script3 := s.primary(goal)
+			if cr3.Res == "unknown" || cr3.Res == "error" {
+				cr3 = s.fallbacks(script3, cr3)
+			}
+			if cr3.Res == "unsat" {
+				cr = cr3
+			} else {
+				script = script3
+			}
+		}
 	}
 	if cr.Res != "unsat" {
 		lastScript = script
@@ -565,6 +584,7 @@ func (e *Exec) step(st *State, fr *Frame, instr ssa.Instruction) bool {
 	case *ssa.Store:
 		addr := e.val(fr, i.Addr)
 		e.nilCheck(st, fr, i, addr)
+		e.checkProtected(st, fr, i, addr, true)
 		e.store(st, addr, i.Val.Type(), e.val(fr, i.Val))
 	case *ssa.UnOp:
 		fr.env[i] = e.unop(st, fr, i)
@@ -727,6 +747,7 @@ func (e *Exec) unop(st *State, fr *Frame, i *ssa.UnOp) Val {
 	switch i.Op {
 	case token.MUL:
 		e.nilCheck(st, fr, i, x)
+		e.checkProtected(st, fr, i, x, false)
 		return e.load(st, x, i.Type())
 	case token.NOT:
 		return Not(e.term(x))
